@@ -1008,6 +1008,67 @@ func genC17(r *Rng, e *Emitter, n int) {
 		e.tally("undated-after-dated")
 		e.emit("C17.call", desc, fmt.Sprintf("(m (%d %d %d %d) ())", 4, 1, diff, 0))
 	}
+	// a decoded geometry is the caller's: what the caller then does to it (an SRID, a pushed part) has
+	// nothing to do with what the next decode of the same document returns
+	{
+		docs := []string{`{"type":"Point"}`, `{"type":"MultiPoint"}`, `{"type":"LineString","coordinates":null}`, `{"type":"Polygon"}`,
+			`{"type":"MultiLineString"}`, `{"type":"MultiPolygon","coordinates":null}`, `{"type":"GeometryCollection","geometries":[{"type":"Point"},{"type":"MultiPoint"}]}`,
+			`{"type":"Point","coordinates":[]}`, `{"type":"LineString","coordinates":[]}`, `{"type":"GeometryCollection"}`}
+		var use func(g geom.T)
+		use = func(g geom.T) {
+			switch x := g.(type) {
+			case *geom.Point:
+				x.SetSRID(4326)
+			case *geom.LineString:
+				x.SetSRID(4326)
+			case *geom.Polygon:
+				x.SetSRID(4326)
+				x.Push(geom.NewLinearRingFlat(x.Layout(), make([]float64, 4*x.Stride())))
+			case *geom.MultiPoint:
+				x.SetSRID(4326)
+				x.Push(geom.NewPointEmpty(x.Layout()))
+			case *geom.MultiLineString:
+				x.SetSRID(4326)
+				x.Push(geom.NewLineString(x.Layout()))
+			case *geom.MultiPolygon:
+				x.SetSRID(4326)
+				x.Push(geom.NewPolygon(x.Layout()))
+			case *geom.GeometryCollection:
+				x.SetSRID(4326)
+				for _, m := range x.Geoms() {
+					use(m)
+				}
+				x.Push(geom.NewPointFlat(geom.XY, []float64{1, 2}))
+			}
+		}
+		desc := "(encoding/geojson.[*Geometry].Decode result-then-used-by-the-caller)"
+		e.pending("C17.batch", "("+desc+")")
+		diff := 0
+		for _, doc := range docs {
+			dec := func() (geom.T, string) {
+				var g geom.T
+				if err := geojson.Unmarshal([]byte(doc), &g); err != nil {
+					return nil, "(err)"
+				}
+				return g, snapGeom(g)
+			}
+			var g1 geom.T
+			var s1, s2 string
+			guard(func() string { g1, s1 = dec(); return "" })
+			guard(func() string {
+				if g1 != nil {
+					use(g1)
+				}
+				return ""
+			})
+			guard(func() string { _, s2 = dec(); return "" })
+			if s1 != s2 {
+				diff++
+			}
+		}
+		e.tally("decoded-then-used")
+		e.emit("C17.call", desc, fmt.Sprintf("(m (%d %d %d %d) ())", len(docs), 1, diff, 0))
+	}
 	for e.count < n {
 		switch {
 		case r.chance(1, 6):
